@@ -125,6 +125,7 @@ func CSVConsumer(opts ...CSVOpt) Consumer {
 					return err
 				}
 
+				v.SetLen(0) // the destination may hold more records than were read: SetCap below requires len <= cap
 				v.Grow(len(csvWriter.records))
 				v.SetCap(len(csvWriter.records)) // in case Grow was unnessary, trim down the capacity
 				v.SetLen(len(csvWriter.records))
